@@ -375,10 +375,31 @@ def r4_final_checks(ctx):
     w = [norm(a) for a in ast.walk(cn) if isinstance(a, ast.Assign)]
     ctx.check(any(x.endswith(".constant = True") for x in w), ND + "node_constant.py", "ConstantNode.parse", "the property writes the flag the dispatch reads", detail=w)
     # declarations are marked by the typed recognisers
-    for f, c in (("node_boolean.py", "BooleanNode"), ("node_integer.py", "IntegerNode"), ("node_float.py", "FloatNode"), ("node_string.py", "StringNode")):
-        s = norm(ctx.fn(ND + f, f"{c}.is_node")).replace("\n", " ")
-        ctx.form("if parser.is_parsed('part_equal'): parser.part_value() else: parser.defined = True" in s, ND + f, f"{c}.is_node",
-                 "a typed line without '=' is a declaration")
+    # siblings: the typed recognisers (bool, int, float, str, table) fill one slot of the recogniser list and have to agree
+    # on what a line without '=' means.  Each is read for "some path that has not parsed '=' sets <parser>.defined = True";
+    # a recogniser that never sets the flag while its siblings do is the violation (its declarations are never demanded)
+    from ..flowexpr import paths as _paths
+    sib = {}
+    for f, c in (("node_boolean.py", "BooleanNode"), ("node_integer.py", "IntegerNode"), ("node_float.py", "FloatNode"), ("node_string.py", "StringNode"),
+                 ("node_table.py", "TableNode")):
+        fn_ = ctx.fn(ND + f, f"{c}.is_node")
+        par_ = fn_.args.args[0].arg if fn_.args.args else "parser"
+        marks = False
+        for q in _paths(fn_):
+            eq = [t.extra for t in q.tests() if isinstance(t.resolved, ast.AST) and "is_parsed('part_equal')" in norm(t.resolved) and not norm(t.resolved).startswith("not ")]
+            sets_ = any(e.kind == "store" and e.extra == f"{par_}.defined" and norm(e.resolved) == "True" for e in q.events)
+            if eq and eq[0] is False and sets_:
+                marks = True
+        sib[(f, c)] = marks
+    for (f, c), marks in sib.items():
+        whatd = "a typed line without '=' is a declaration"
+        if marks:
+            ctx.holds(ND + f, f"{c}.is_node", whatd)
+        elif sum(sib.values()) >= 3:
+            ctx.violated(ND + f, f"{c}.is_node", whatd, detail="no path without '=' sets parser.defined = True",
+                         expected=f"else: parser.defined = True  (as {', '.join(k[1] for k, v in sib.items() if v)})")
+        else:
+            ctx.form(False, ND + f, f"{c}.is_node", whatd)
 
 
 def r5_type_kept(ctx):
